@@ -27,20 +27,33 @@ EM = "gpytorch.mlls.exact_marginal_log_likelihood.ExactMarginalLogLikelihood"
 
 
 def cases(ix):
-    return [(br, P, K) for br in (0, 1) for P in (0, 1, 2, 3) for K in (0, 1, 2)]
+    return [(br, P, K) for br in (0, 1) for P in (0, 1, 2, 3) for K in (0, 1, 2)] + [(0, "2shared", 0), (1, "2shared", 1), (0, "mt", 0), (1, "mt", 1)]
 
 
 @case("C02", clause="mll.assembly", expand=cases, replay=lambda *a: replay_mll(*a),
       functions=[f"{EM}.forward", f"{EM}._add_other_terms", "gpytorch.module.Module.named_priors", "gpytorch.module._extract_named_priors",
                  "gpytorch.module.Module.added_loss_terms", "gpytorch.module._extract_named_added_loss_terms"])
 def mll_assembly(c, batch_rank, P, K):
+    """P = "2shared": ONE prior object registered at two sites (model and sub-module): both registrations contribute their term;
+    P = "mt": a multitask function distribution with event shape (n, t): the divisor is the number of targets n * t"""
     it, ctx = c.it, c.ctx
     n = c.size("n")
     b = c.size("b")
     bs = [b.t] if batch_rank else []
-    fdist = make_mvn(c, "f", bs, n.t)
-    out = make_mvn(c, "marg", bs, n.t)
-    y = sym_tensor("y", bs + [n.t])
+    shared, mt = P == "2shared", P == "mt"
+    P = 2 if shared else (1 if mt else P)
+    if mt:
+        from contracts.dist_spec import make_mtmvn
+        t = c.size("t")
+        fdist = make_mtmvn(c, "f", bs, n.t, t.t, True)
+        out = make_mtmvn(c, "marg", bs, n.t, t.t, True)
+        y = sym_tensor("y", bs + [n.t, t.t])
+        n_targets = n.t * t.t
+    else:
+        fdist = make_mvn(c, "f", bs, n.t)
+        out = make_mvn(c, "marg", bs, n.t)
+        y = sym_tensor("y", bs + [n.t])
+        n_targets = n.t
     lp = sym_tensor("logprob", bs)
     lp0 = lp.frozen()  # the code updates the returned tensor in place; the spec refers to the value log_prob returned
     lik = module_obj(c, "gpytorch.likelihoods.gaussian_likelihood.GaussianLikelihood", "likelihood")
@@ -63,12 +76,17 @@ def mll_assembly(c, batch_rank, P, K):
 
     it.call_hooks.append(hook)
     priors = []
+    table = []  # (closure value, log-prior tensor) pairs of a shared prior object
+    shared_prior = Stub("shared_prior", methods={"log_prob": lambda x: next((l for v, l in table if x is v), sym_tensor("wrong_closure_arg", bs + [z3.IntVal(1)]))}, isa=("Prior",))
     for p in range(P):
         dp = c.size(f"dp{p}")
         lpp = sym_tensor(f"logprior{p}", bs + [dp.t])
         owner = child if (p == P - 1 and P >= 2) else model
         value = sym_tensor(f"pval{p}", bs + [dp.t])
         prior = Stub(f"prior{p}", methods={"log_prob": (lambda x, lpp=lpp, value=value: lpp if x is value else sym_tensor("wrong_closure_arg", bs + [dp.t]))}, isa=("Prior",))
+        if shared:
+            table.append((value, lpp))
+            prior = shared_prior
         seen = []
         closure = Stub(f"closure{p}", methods={"__call__": (lambda m, value=value, seen=seen: (seen.append(m), value)[1])})
         owner.fields["_priors"].d[f"p{p}_prior"] = VTuple([prior, closure, NONE])
@@ -97,7 +115,7 @@ def mll_assembly(c, batch_rank, P, K):
     for lpp, dp, owner, seen in priors:
         total = total + mk_sum(lambda e, lpp=lpp: lpp.at(bidx + [e]), dp)
     c.prove("mll.rank", z3.BoolVal(len(res.dims) == batch_rank))
-    c.prove("mll.value", res.at(bidx) == total / z3.ToReal(n.t))
+    c.prove("mll.value", res.at(bidx) == total / z3.ToReal(n_targets))
 
 
 @case("C02", clause="sum_mll", expand=lambda ix: [(2, False), (3, False), (2, True)], replay=lambda *a: replay_sum(*a),
@@ -153,9 +171,12 @@ def _model(batch_shape, P, K, dtype):
         m.covar_module.base_kernel.lengthscale = 0.3 + torch.rand(*batch_shape, 1, 2, dtype=dtype, generator=g)
         m.covar_module.outputscale = 0.5 + torch.rand(batch_shape, dtype=dtype, generator=g)
         lik.noise = 0.05 + 0.1 * torch.rand(*batch_shape, 1, dtype=dtype, generator=g)
+    shared = P == "2shared"
+    P = 2 if shared else (0 if P == "mt" else P)
     targets = [(m.covar_module, "outputscale"), (m.covar_module.base_kernel, "lengthscale"), (m.mean_module, "constant")][:P]
+    one_prior = gpytorch.priors.NormalPrior(0.5, 2.0)  # the SAME prior object at both sites when shared
     for mod, name in targets:
-        mod.register_prior(name + "_prior", gpytorch.priors.NormalPrior(0.5, 2.0), name)
+        mod.register_prior(name + "_prior", one_prior if shared else gpytorch.priors.NormalPrior(0.5, 2.0), name)
     extras = []
     if K >= 1:
         m.register_added_loss_term("t0")
@@ -190,6 +211,8 @@ def replay_mll(model, params, clause, info):
     import gpytorch
     br, P, K = params
     bs = torch.Size([2] if br else [])
+    if P == "mt":
+        return replay_mt_divisor(model, params, clause, info)
     m, lik, X, Y, targets, extras = _model(bs, P, K, torch.float64)
     m.train(); lik.train()
     mll = gpytorch.mlls.ExactMarginalLogLikelihood(lik, m)
@@ -199,6 +222,40 @@ def replay_mll(model, params, clause, info):
     ok = got.shape == want.shape and torch.allclose(got, want, atol=1e-9)
     return {"violates": not ok, "detail": f"batch {list(bs)}, {P} priors, {K} added losses: MLL {got.tolist()} vs dense definition {want.tolist()}",
             "entry": {"module": "contracts.C02_exact_mll", "function": "replay_mll", "args": [model, list(params), clause, info]}}
+
+
+def replay_mt_divisor(model, params, clause, info):
+    """multitask exact GP: MLL = (log density + other terms) / (n * t)"""
+    import math
+    import torch
+    import gpytorch
+    torch.manual_seed(3)
+    n, t = 5, 2
+
+    class MT(gpytorch.models.ExactGP):
+        def __init__(self, x, y, lik):
+            super().__init__(x, y, lik)
+            self.mean_module = gpytorch.means.MultitaskMean(gpytorch.means.ConstantMean(), num_tasks=t)
+            self.covar_module = gpytorch.kernels.MultitaskKernel(gpytorch.kernels.RBFKernel(), num_tasks=t, rank=1)
+
+        def forward(self, x):
+            return gpytorch.distributions.MultitaskMultivariateNormal(self.mean_module(x), self.covar_module(x))
+
+    X = torch.rand(n, 2, dtype=torch.double)
+    Y = torch.randn(n, t, dtype=torch.double)
+    lik = gpytorch.likelihoods.MultitaskGaussianLikelihood(num_tasks=t).double()
+    m = MT(X, Y, lik).double()
+    m.train(); lik.train()
+    with torch.no_grad(), gpytorch.settings.fast_computations(log_prob=False, covar_root_decomposition=False, solves=False):
+        out = m(X)
+        got = gpytorch.mlls.ExactMarginalLogLikelihood(lik, m)(out, Y).item()
+        marg = lik(out)
+        S = marg.covariance_matrix
+        d = (Y - marg.mean).reshape(-1, 1)
+        lp = -0.5 * ((d.T @ torch.linalg.solve(S, d)).item() + torch.logdet(S).item() + n * t * math.log(2 * math.pi))
+    want = lp / (n * t)
+    return {"violates": abs(got - want) > 1e-9 * (1 + abs(want)), "detail": f"multitask MLL {got:.12f} vs log density / (n*t) = {want:.12f}",
+            "entry": {"module": "contracts.C02_exact_mll", "function": "replay_mt_divisor", "args": [model, list(params), clause, info]}}
 
 
 def replay_sum(model, params, clause, info):
